@@ -164,7 +164,7 @@ def ref_op(n, op):
         for a, b in _mget(n, attr)[0][2]:
             if b[0] != 'm' and valattr is not None:
                 b = ('m', P + 'map', ((('s', P + 'str', valattr), b),))
-            if b[0] == 'm':
+            if b[0] == 'm' and not _mget(b, keyattr):
                 b = ('m', b[1], b[2] + ((('s', P + 'str', keyattr), a),))
             pairs.append((a, b))
         inner = _mget(n, attr)[0]
@@ -240,31 +240,33 @@ class Ref:
             if n[0] != 'q':
                 return set()
             it = typing.get_args(T)[0]
+            amb = None
             for i in n[2]:
                 r = self.recognize(i, it)
                 if not r:
-                    return set()
-                if len(r) > 1:
-                    return {('ambiguous-list', x) for x in r}
-            return {T}
+                    return set()          # one unrecognisable item decides, wherever it stands
+                if len(r) > 1 and amb is None:
+                    amb = {('ambiguous-list', x) for x in r}
+            return amb if amb is not None else {T}
         if self.is_map(T):
             kt, vt = typing.get_args(T)
             if not self.is_strlike(kt):
                 raise RuntimeError('unsupported key type')
             if n[0] != 'm':
                 return set()
+            amb = None
             for a, b in n[2]:
                 r = self.recognize(a, kt)
                 if not r:
                     return set()
-                if len(r) > 1:
-                    return {('ambiguous-dict', x) for x in r}
+                if len(r) > 1 and amb is None:
+                    amb = {('ambiguous-dict', x) for x in r}
                 r = self.recognize(b, vt)
                 if not r:
                     return set()
-                if len(r) > 1:
-                    return {('ambiguous-dict', x) for x in r}
-            return {T}
+                if len(r) > 1 and amb is None:
+                    amb = {('ambiguous-dict', x) for x in r}
+            return amb if amb is not None else {T}
         if T in self.reg:
             return self.rec_classes(n, T)
         raise Reject('unregistered type %r' % (T,))
@@ -311,7 +313,7 @@ class Ref:
                 vs = [b for a, b in n[2] if a[2] == nm]
                 if vs:
                     if len(vs) > 1:
-                        raise Reject('duplicate key')
+                        return False          # a parameter given twice: this mapping is not a C
                     if not self.recognize(vs[0], T):                          # K1
                         return False
                     break
@@ -441,6 +443,8 @@ class Ref:
                 raise Reject('non-string key')
         for a, b in n[2]:
             seen.setdefault(a[2], []).append(b)
+        if any(len(v) > 1 for v in seen.values()):
+            raise Reject('a key occurs twice')       # parameters and extras alike
         for name, T, req in params:
             if name in seen:
                 if len(seen[name]) > 1:
